@@ -142,7 +142,7 @@ var (
 	protoAlpha = []string{"netrpc", "\x00", "", "grpc", "GRPC", "bogus", "net{ff}rpc", "{fe}grpc"}
 	certAlpha  = []string{"\x00", "", "0123456789", strings.Repeat("!", 60), strings.Repeat("QUJD", 15), "REAL", strings.Repeat("\r", 60), "REAL2", "REALJUNK", "REALCR"}
 	muxAlpha   = []string{"\x00", "", "true", "false", "1", "yes"}
-	shapeAlpha = []string{"LF", "CRLF", "blanks", "extra8", "trunc3", "trunc2", "trunc1", "trunc0", "nonl-eof", "nonl-silence", "emptyfirst", "long70k", "exit-before", "silence", "closed-alive", "nonl-closed-alive", "tail6k"}
+	shapeAlpha = []string{"LF", "CRLF", "blanks", "extra8", "trunc3", "trunc2", "trunc1", "trunc0", "nonl-eof", "nonl-silence", "emptyfirst", "long70k", "exit-before", "silence", "closed-alive", "nonl-closed-alive", "tail6k", "more2-exit", "more2-stay"}
 )
 
 func (l lineSpec) key() string {
@@ -230,6 +230,10 @@ func (l lineSpec) render() (out []byte, after string) {
 		return nil, "exit"
 	case "silence":
 		return nil, "stay"
+	case "more2-exit", "more2-stay":
+		// two more complete lines follow the first one (a usage text, a wrapper script's chatter); then the process
+		// exits, or lives on
+		return []byte(line + "\nusage: plugin [flags]\n  run me from the host application\n"), strings.TrimPrefix(l.shape, "more2-")
 	case "tail6k":
 		// the plugin keeps printing right after its handshake line, in the same write: 6000 more bytes without a newline,
 		// which begin with text shaped like the line itself but naming another address
@@ -480,6 +484,10 @@ func init() {
 					}
 				}
 			}
+			// C03: once the launched process is gone (it exited by itself, or the failed start / Kill ended it) the client says so
+			if r.startCount() > 0 && r.hasExited() && x.Data["killed"] == true && !cl.Exited() {
+				x.Fail("L", "Client.Exited() is still false %v after the launched process was gone [%s]", x.Now()-x.Data["dt"].(time.Duration), desc)
+			}
 			for _, e := range x.EndBlocked {
 				x.Fail("L", "blocked forever: %s [%s]", e, desc)
 			}
@@ -495,6 +503,25 @@ func init() {
 				lines = genLines(1, 0, 1, 2)
 			case "fail-thorough":
 				lines = genLines(2, 0, 1, 2)
+			case "dies", "dies-thorough":
+				// C03, crash point "before the handshake is complete": lines (<= 1, thorough <= 2 coordinates off) after which the
+				// process exits by itself, with or without more output first
+				k := 1
+				if tier == "dies-thorough" {
+					k = 2
+				}
+				for _, l := range genLines(k, 0, 1, 2) {
+					switch l.shape {
+					case "nonl-eof", "exit-before", "more2-exit":
+						lines = append(lines, l)
+					}
+				}
+				// (shape is itself a coordinate: one more off-canonical coordinate next to it)
+				for _, l := range genLines(k+1, 0, 1, 2) {
+					if l.shape == "more2-exit" {
+						lines = append(lines, l)
+					}
+				}
 			}
 			var out []explore.Params
 			for ci := range cfgs {
